@@ -724,6 +724,9 @@ struct Tcp
 			start_read(*sp);
 			pump(*sp);
 		};
+		// a server that keeps one pre-opened socket object around for the next connection - opened, as it happens, for the
+		// other address family than the connection that arrives (accept closes it and takes it over)
+		if (variant != 2 && plan.c("accept_target_v6", 0) && !s.sock->is_open()) { error_code oec; s.sock->open(tcp::v6(), oec); ctx.hit("accept_into_socket_opened_for_v6"); }
 		if (variant == 0) acceptors[c]->async_accept(*s.sock, done);
 		else if (variant == 1)
 		{
@@ -900,6 +903,7 @@ struct Tcp
 		sap->open(udp::v4());
 		sap->bind(udp::endpoint(U[0], 6000));
 		sap->non_blocking(true);
+		if (plan.c("uburst", 0)) { error_code oec; sap->set_option(boost::asio::socket_base::send_buffer_size(3000), oec); }
 		int m_same = mtuAB;
 		if (multi)
 		{
@@ -981,7 +985,13 @@ struct Tcp
 			for (size_t i = 0; i < data.size(); ++i) data[i] = stream_byte(0xdf00 + idx, int64_t(i));
 			std::size_t const n = sa2.send_to(asio::buffer(data), dst == 2 ? udp::endpoint(U[1], 6002) : udp::endpoint(V[dst], 6001), 0, ec);
 			ctx.tr.rec("udp_send", {state, ec.value(), cur, dst}, {size, int64_t(n)});
-			if (ec == boost::asio::error::would_block) { /* not sent */ }
+			if (ec == boost::asio::error::would_block)
+			{
+				// not sent - which a datagram that don't-fragment discards anyway cannot be: that one "is sent"
+				ctx.hit("udp_would_block");
+				if (c20 && state == 1 && size > mtu)
+					fail("mtu.udp.df_would_block", "a datagram over the path MTU on a don't-fragment socket was answered with would_block instead of being reported as sent (and discarded)");
+			}
 			else if (ec) fail("mtu.udp.send_error", "send_to failed: " + ec.message());
 			else
 			{
@@ -994,7 +1004,8 @@ struct Tcp
 				if (state != 1 && size > mtu) ctx.hit("udp_over_mtu_fragmentable");
 				if (multi && (cur != 0 || dst != 0)) ctx.hit("udp_other_address_pair");
 			}
-			t.expires_after(duration(std::max<int64_t>(1000000, o.at)));
+			// (with "uburst" the datagrams of a run follow each other within microseconds, behind a small send buffer)
+			t.expires_after(duration(plan.c("uburst", 0) ? std::max<int64_t>(1, o.at % 20000) : std::max<int64_t>(1000000, o.at)));
 			t.async_wait([&](error_code const& tec) { if (!tec) next(); });
 		};
 		next();
@@ -1352,6 +1363,7 @@ struct TcpEngine : Engine
 		{
 			// path MTUs of the other three address pairs of the UDP part
 			std::vector<int64_t> const pool{64, 100, 300, 576, 1000, 1200, 1475, 1500, 4000, 9000};
+			p.cfg["uburst"] = rng.chance(0.2) ? 1 : 0;
 			for (char const* k : {"umtu1", "umtu2", "umtu3", "umtu4"})
 				p.cfg[k] = rng.chance(0.3) ? int64_t(rng.range(64, 9000)) : rng.pick(pool);
 		}
@@ -1361,6 +1373,7 @@ struct TcpEngine : Engine
 		p.cfg["same_port"] = rng.chance(0.1) ? 1 : 0;
 		p.cfg["past_timer"] = rng.chance(0.1) ? 1 : 0;
 		p.cfg["poll_reads"] = rng.chance(0.15) ? 1 : 0;
+		p.cfg["accept_target_v6"] = rng.chance(0.12) ? 1 : 0;
 		p.cfg["abandon"] = (!c06 && !c19 && rng.chance(0.12)) ? 1 : 0;
 		bool const finite = (c06 && rng.chance(0.7)) || (c05 && rng.chance(0.35));
 		int nconn = 1;
@@ -1405,6 +1418,14 @@ struct TcpEngine : Engine
 				p.cfg[std::string(pre) + "0bw"] = 0; p.cfg[std::string(pre) + "0lat"] = 0; p.cfg[std::string(pre) + "0cap"] = 0;
 				p.cfg[std::string(pre) + "n"] = std::min<int64_t>(4, n + 1);
 			}
+		}
+		// nothing on the route defers a packet, yet segments are lost (the fault sinks hand them back): acknowledgements and
+		// retransmissions then happen inside the very calls that send
+		if (c05 && rng.chance(0.05))
+		{
+			for (char const* pre : {"ao", "bo"}) p.cfg[std::string(pre) + "n"] = 1;
+			for (char const* pre : {"ab", "bi", "ba", "ai"}) p.cfg[std::string(pre) + "n"] = 0;
+			p.cfg["sync_lossy"] = 1;
 		}
 		// captures must name the true source even when the sender sits behind a NAT and its segments are dropped (and
 		// handed back for retransmission) by a queue beyond the NAT
